@@ -40,9 +40,9 @@ def run(tier):
         design = [('c07nla_q', full), ('c07chic_q', full), ('c07contig_q', full)]
         gens = ['gen4_q', 'genchic_q']
     else:
-        design = [('c07nla_t', full), ('c07nla5_t', full), ('c07chic_t', full), ('c07plain_t', full), ('c07contig_t', full),
+        design = [('c07nla_t', full), ('c07nla5_t', full), ('c07chic_t', full), ('c07plain_t', full), ('c07plain5_t', full), ('c07contig_t', full),
                   ('c07nla_q', full), ('c07chic_q', full)]
-        gens = ['gen4_q', 'genchic_q', 'gen3_q', 'gen4_t', 'genplain_t']
+        gens = ['gen4_q', 'genchic_q', 'gen3_q', 'gen4_t', 'genplain_t', 'genplain5_t']
     negative = [('c07nla_pop', C07), ('c07chic_pop', C07), ('c07nla_beyond', C07), ('c07chic_beyond', C07)]
     mc.run_mcs(c, design, negative, workers=4, par=4)
     scn = os.path.join(vlib.scratch(), 'scenarios.json')
